@@ -44,15 +44,31 @@ def run(cx):
 
     # ---- R03.unsafe-owners ------------------------------------------------
     unsafe_fns = [f for f in pico if f.unsafe_blocks]
-    cx.floor("R03.unsafe-owners functions with unsafe blocks", len(unsafe_fns), 3)
+    cx.floor("R03.unsafe-owners functions with unsafe blocks", len(unsafe_fns), 1)
+    # the reviewed owners, closed under private helpers that are called by owners only (extracting the body of
+    # lookup / lookup_tracked into a private function does not create a new way into the unsafe code)
+    callers = {}
+    for g_ in pico:
+        for t_ in g_.calls():
+            if t_.callee in fb.fns:
+                callers.setdefault(t_.callee, set()).add(g_.root or g_.id)
+    owners = set(UNSAFE_OWNERS)
+    for _ in range(4):
+        for f in pico:
+            if f.id in owners or f.j.get("vis") in ("pub", "public"):
+                continue
+            cs = callers.get(f.id, set())
+            if cs and cs <= owners:
+                owners.add(f.id)
+    cx.extra["unsafe_owner_cone"] = sorted(owners)
     for f in unsafe_fns:
-        cx.ob("R03.unsafe-owners", f.id + "|unsafe-block", f.id in UNSAFE_OWNERS,
-              "unsafe block outside the reviewed owners (RawPtr::as_ref, MemoRef::lookup, MemoRef::lookup_tracked)",
-              f.loc(f.unsafe_blocks[0]))
+        cx.ob("R03.unsafe-owners", f.id + "|unsafe-block", f.id in owners,
+              "unsafe block outside the reviewed owners (RawPtr::as_ref, MemoRef::lookup, MemoRef::lookup_tracked and "
+              "private helpers called only by them)", f.loc(f.unsafe_blocks[0]))
     for t in fb.calls_to(r"raw_ptr::RawPtr::<T>::as_ref$"):
         if not non_test(t.fn):
             continue
-        cx.ob("R03.unsafe-owners", t.fn.id + "|calls-as_ref", t.fn.id in UNSAFE_OWNERS,
+        cx.ob("R03.unsafe-owners", t.fn.id + "|calls-as_ref", t.fn.id in owners,
               "RawPtr::as_ref called outside MemoRef::lookup{,_tracked}", t.fn.loc(t.line))
     froms = [t for t in fb.calls_to(r"raw_ptr::RawPtr::<T>::from_ref$") if non_test(t.fn)]
     cx.floor("R03.unsafe-owners RawPtr::from_ref call sites", len(froms), 1)
@@ -69,12 +85,10 @@ def run(cx):
                   "a MemoRef of the raw-pointer kind is produced outside intern_ref (lookup would reinterpret a "
                   "stored value as a pointer)", f.loc(a.line))
     # in lookup*, as_ref is reached only on the RawPtr arm of `match self.kind`
-    for name in ("lookup", "lookup_tracked"):
-        f = fb.one(r"pico::memo_ref::MemoRef::<T>::%s$" % name)
-        sws = [s for s in discr_switches(f) if s["adt"] == "pico::memo_ref::MemoRefKind"]
-        if len(sws) != 1:
-            raise AnchorError("%s: expected one match on MemoRefKind" % f.id)
-        sw = sws[0]
+    kind_fns = [(f, s_) for f in pico for s_ in discr_switches(f) if s_["adt"] == "pico::memo_ref::MemoRefKind"
+                and blocks_calling(f, r"downcast_ref$")]
+    cx.floor("R03.unsafe-owners functions interpreting a stored value by MemoRefKind", len(kind_fns), 1)
+    for f, sw in kind_fns:
         asref = set(blocks_calling(f, r"RawPtr::<T>::as_ref$"))
         val_region = reachable_from(f, sw["arms"]["Value"])
         cx.ob("R03.unsafe-owners", f.id + "|deref-only-on-RawPtr-kind", bool(asref) and not (asref & val_region)
